@@ -90,6 +90,9 @@ func (e *Encoder) Bytes() ([]byte, error) {
 	if e.mode == modeInitial {
 		e.appendDefaultMetadata()
 	}
+	// Drawing operations are buffered until the operation changes; a path
+	// that has not been ended yet still belongs to the bytes handed out.
+	e.flushDrawOps()
 	return []byte(e.buf), nil
 }
 
